@@ -519,6 +519,16 @@ func touches(p, q string) bool {
 }
 
 // bind: `lhs = rhs` / `lhs := rhs`
+// substituted: the translator reads and writes the copied path itself instead of this variable (findPtrSubst)
+func (an *aliasAn) substituted(id *ast.Ident) bool {
+	obj := an.t.info.Defs[id]
+	if obj == nil {
+		obj = an.t.info.Uses[id]
+	}
+	_, ok := an.t.ptrSubst[obj]
+	return ok
+}
+
 func (an *aliasAn) isStructPtrIdent(id *ast.Ident) bool {
 	obj := an.t.info.Defs[id]
 	if obj == nil {
@@ -559,7 +569,7 @@ func (an *aliasAn) ptrWrite(root string, what string) {
 
 func (an *aliasAn) bind(lhs, rhs ast.Expr) {
 	t := an.t
-	if id, ok := lhs.(*ast.Ident); ok && id.Name != "_" && rhs != nil && an.isStructPtrIdent(id) {
+	if id, ok := lhs.(*ast.Ident); ok && id.Name != "_" && rhs != nil && an.isStructPtrIdent(id) && !an.substituted(id) {
 		if p, ok := pathOf(rhs); ok {
 			if an.ptrCopy == nil {
 				an.ptrCopy = map[string]string{}
@@ -952,6 +962,8 @@ func (an *aliasAn) hazards() []string {
 
 // analyse one function: events, summary (for its callers) and hazards
 func aliasAnalyse(t *tr, m *fnMeta, sums map[*fnMeta]*aliasSummary) []string {
+	t.ptrSubst = map[types.Object]ast.Expr{}
+	t.findPtrSubst(m)
 	an := &aliasAn{t: t, m: m, sums: sums, params: map[string]int{}}
 	saveRes, saveMeta := t.results, t.meta
 	t.results = nil
